@@ -125,12 +125,43 @@ func replay(f Factory, params json.RawMessage, h []pt.Action) (Machine, *pt.Viol
 	return m, nil
 }
 
+// isolatedExec, when set, executes history h followed by action a in a fresh worker process and returns the
+// transition (see expandItem).
+var isolatedExec func(check string, params json.RawMessage, h []pt.Action, a pt.Action) (*pt.Succ, error)
+
+// execOne is what such a process does: exactly one execution.
+func execOne(check string, f Factory, params json.RawMessage, h []pt.Action, a pt.Action) pt.Succ {
+	s := pt.Succ{A: a, Evals: 1}
+	inEnv(check, func() {
+		m, v := replay(f, params, h)
+		defer shutdown(m)
+		if v != nil {
+			s.Viol = v
+			return
+		}
+		s.Viol = safeApply(m, a)
+		if s.Viol == nil {
+			s.Key, s.Nontrivial = m.Key()
+			s.Outcome = m.Outcome()
+			s.Viol = safeClose(m)
+		}
+	})
+	if s.Viol != nil {
+		s.Terminal = true
+		if s.Key == "" {
+			s.Key = "viol:" + s.Viol.Sig
+		}
+	}
+	return s
+}
+
 // expandItem computes all successors of the state reached by h. journal(k) is called before the
 // k-th successor is executed (a dead worker then names the action in flight); skip lists successor
 // indices known to kill the worker.
 func expandItem(check string, f Factory, params json.RawMessage, h []pt.Action, wantKey string, journal func(k int, a pt.Action), skip map[int]bool) ([]pt.Succ, error) {
 	var acts []pt.Action
 	var err error
+	isolated := false
 	inEnv(check, func() {
 		base, v := replay(f, params, h)
 		defer shutdown(base)
@@ -140,6 +171,14 @@ func expandItem(check string, f Factory, params json.RawMessage, h []pt.Action, 
 		}
 		if wantKey != "" {
 			if k, _ := base.Key(); k != wantKey {
+				if isolatedExec != nil {
+					// the same history gave another state than when it was first reached: something outlives an execution
+					// inside this process (state at package level in the code under test). From here on every successor of
+					// this item is executed in a process of its own, which is what a server process is.
+					isolated = true
+					acts = base.Enabled()
+					return
+				}
 				err = fmt.Errorf("nondeterminism: replay of %v gave key %s, expected %s", h, k, wantKey)
 				return
 			}
@@ -148,6 +187,23 @@ func expandItem(check string, f Factory, params json.RawMessage, h []pt.Action, 
 	})
 	if err != nil {
 		return nil, err
+	}
+	if isolated {
+		out := make([]pt.Succ, 0, len(acts))
+		for k, a := range acts {
+			if skip[k] {
+				continue
+			}
+			if journal != nil {
+				journal(k, a)
+			}
+			s, e := isolatedExec(check, params, h, a)
+			if e != nil {
+				return nil, fmt.Errorf("nondeterminism: replay of %v differs from its first execution, and a process of its own failed: %v", h, e)
+			}
+			out = append(out, *s)
+		}
+		return out, nil
 	}
 	out := make([]pt.Succ, 0, len(acts))
 	for k, a := range acts {
